@@ -268,6 +268,7 @@ func CanonName(pres string) string {
 // Canon is a canonical response.
 type Canon struct {
 	Question   string // the question section exactly as written (case preserved)
+	Hdr        string // opcode and the RD/RA/AD/CD/Z bits
 	Rcode      int
 	AA, TC     bool
 	Answer     []string
@@ -284,6 +285,7 @@ type Canon struct {
 // CanonMsg canonicalises a response: per-section sorted multisets, OPT/ECS split out.
 func CanonMsg(m *dns.Msg) *Canon {
 	c := &Canon{Rcode: m.Rcode, AA: m.Authoritative, TC: m.Truncated}
+	c.Hdr = fmt.Sprintf("opcode=%d rd=%v ra=%v ad=%v cd=%v z=%v", m.Opcode, m.RecursionDesired, m.RecursionAvailable, m.AuthenticatedData, m.CheckingDisabled, m.Zero)
 	for _, q := range m.Question {
 		c.Question += fmt.Sprintf("%s/%d/%d ", q.Name, q.Qtype, q.Qclass)
 	}
@@ -326,7 +328,7 @@ func (c *Canon) Full(withExtraAddrs bool) string {
 	if c.TC {
 		// which records survive a truncation depends on the (unspecified) order of values under one key;
 		// a truncated reply is compared by its header only, the size rule itself is C13's / C20's
-		return fmt.Sprintf("Q %s\nrcode=%d aa=%v tc=true (sections not compared)\nOPT %v %s\nECS %v %s scope=%d", c.Question, c.Rcode, c.AA, c.HasOPT, c.OPT, c.HasECS, c.ECS, c.ECSScope)
+		return fmt.Sprintf("Q %s\n"+c.Hdr+"\nrcode=%d aa=%v tc=true (sections not compared)\nOPT %v %s\nECS %v %s scope=%d", c.Question, c.Rcode, c.AA, c.HasOPT, c.OPT, c.HasECS, c.ECS, c.ECSScope)
 	}
 	extra := c.Extra
 	if !withExtraAddrs {
@@ -350,7 +352,7 @@ func (c *Canon) Full(withExtraAddrs bool) string {
 		}
 		sort.Strings(extra)
 	}
-	return fmt.Sprintf("Q %s\nrcode=%d aa=%v tc=%v\nAN %s\nNS %s\nAR %s\nOPT %v %s\nECS %v %s scope=%d",
+	return fmt.Sprintf("Q %s\n"+c.Hdr+"\nrcode=%d aa=%v tc=%v\nAN %s\nNS %s\nAR %s\nOPT %v %s\nECS %v %s scope=%d",
 		c.Question, c.Rcode, c.AA, c.TC, strings.Join(c.Answer, " | "), strings.Join(c.Ns, " | "), strings.Join(extra, " | "), c.HasOPT, c.OPT, c.HasECS, c.ECS, c.ECSScope)
 }
 
